@@ -123,8 +123,9 @@ func parseHistText(b []byte) (string, [][3]string) {
 		if len(f) < 4 {
 			continue
 		}
-		lo := strings.TrimSuffix(strings.TrimPrefix(f[0], "["), ",")
-		hi := strings.TrimSuffix(f[1], "]")
+		// "[lo, hi]" — or any other bracket style: only the bounds and the count are what the property speaks of
+		lo := strings.TrimSuffix(strings.TrimLeft(f[0], "[("), ",")
+		hi := strings.TrimRight(f[1], "])")
 		rows = append(rows, kit.HexS(lo)+","+kit.HexS(hi)+","+f[2])
 		raw = append(raw, [3]string{lo, hi, f[2]})
 	}
